@@ -5,6 +5,7 @@ import (
 	"os"
 	"path/filepath"
 	"sort"
+	"strings"
 
 	"github.com/JunNishimura/Goit/internal/sha"
 	"github.com/fatih/color"
@@ -103,7 +104,16 @@ func (r *Refs) IsBranchExist(branchName string) bool {
 	return p != NewBranchFlag
 }
 
+// a branch is stored as one file directly under refs/heads, so its name must be a single path component
+func isValidBranchName(name string) bool {
+	return name != "" && name != "." && name != ".." && !strings.Contains(name, "/") && !strings.Contains(name, "\\") && !strings.Contains(name, "\x00")
+}
+
 func (r *Refs) AddBranch(rootGoitPath, newBranchName string, newBranchHash sha.SHA1) error {
+	if !isValidBranchName(newBranchName) {
+		return fmt.Errorf("'%s' is not a valid branch name", newBranchName)
+	}
+
 	// check if branch already exists
 	n := r.getBranchPos(newBranchName)
 	if n != NewBranchFlag {
@@ -125,6 +135,10 @@ func (r *Refs) AddBranch(rootGoitPath, newBranchName string, newBranchHash sha.S
 }
 
 func (r *Refs) RenameBranch(rootGoitPath, curBranchName, newBranchName string) error {
+	if !isValidBranchName(newBranchName) {
+		return fmt.Errorf("'%s' is not a valid branch name", newBranchName)
+	}
+
 	// check if new branch name is not used for other branches
 	n := r.getBranchPos(newBranchName)
 	if n != NewBranchFlag {
